@@ -333,8 +333,8 @@ Qed.
    the per-bit records of the step followed by finish_time_step hand the store a sequence of (vector, symbols) values
    such that an untouched vector hands over nothing and keeps its symbols, and the last value handed over for a touched
    vector is its final symbols - the symbols obtained by applying the records in order; afterwards no vector is marked *)
-Theorem time_step_spec vb S e script vb1 e1 vb2 e2 :
-  vecs0 = vb_vecs vb -> vbinv vb S -> vb_change_list vb = [] ->
+Theorem time_step_spec_shape vb S e script vb1 e1 vb2 e2 :
+  same_shape vecs0 (vb_vecs vb) -> vbinv vb S -> vb_change_list vb = [] ->
   (forall id v, nth_error (vb_vecs vb) id = Some v -> ve_signal_change v = false) ->
   Forall value_ok script ->
   run_updates vb e script = Ok (vb1, e1) -> finish_time_step vb1 e1 = Ok (vb2, e2) ->
@@ -345,11 +345,12 @@ Theorem time_step_spec vb S e script vb1 e1 vb2 e2 :
     vbinv vb2 S2 /\ vb_change_list vb2 = [] /\
     (forall id v, nth_error (vb_vecs vb2) id = Some v -> ve_signal_change v = false) /\
     (forall id syms, nth_error S2 id = Some syms -> In id touched -> last_opt (for_id id T) = Some syms) /\
-    (forall id, ~ In id touched -> for_id id T = [] /\ nth_error S2 id = nth_error S id).
+    (forall id, ~ In id touched -> for_id id T = [] /\ nth_error S2 id = nth_error S id) /\
+    same_shape vecs0 (vb_vecs vb2).
 Proof.
   intros Hv0 Hinv Hcl Hclean Hok Hru Hfin. cbn zeta.
   assert (Hs0 : sinv vb S [] []).
-  { constructor; [exact Hinv|rewrite Hv0; reflexivity|intros p []|rewrite Hcl; intros id []|].
+  { constructor; [exact Hinv|exact Hv0|intros p []|rewrite Hcl; intros id []|].
     intros id v syms Hv HS. rewrite (Hclean id v Hv). split; [discriminate|]. split; [intros _ []|]. intros _. split; reflexivity. }
   destruct (updates_step script vb S [] [] e vb1 e1 Hs0 Hok Hru) as (T1 & Hr1 & Hs1). cbn [app] in Hs1. rewrite app_nil_r in Hs1.
   unfold finish_time_step in Hfin.
@@ -360,7 +361,7 @@ Proof.
   { unfold ops_of_trace in *. rewrite map_app. eapply run_ops_cat; [exact Hr1|exact Hr2]. }
   split; [exact Hi2|]. split; [reflexivity|]. cbn [vb_vecs]. split.
   { intros id v Hv. destruct (forall2_nth vinv' _ _ _ _ Hi2 Hv) as (syms & HS & _). exact (proj1 (Hv2 id v syms Hv HS)). }
-  split.
+  split; [|split; [|exact Hsh2]].
   - intros id syms HS Hin. assert (Hlt : (id < length vecs2)%nat).
     { rewrite (f2_length _ _ _ Hi2). apply nth_error_Some. congruence. }
     destruct (nth_error vecs2 id) as [v|] eqn:Ev; [|apply nth_error_None in Ev; lia].
@@ -375,6 +376,28 @@ Proof.
     + clear -Hn. revert S. induction script as [|[[vid si] value] script IH]; intros S; [reflexivity|]. cbn [fold_left map fst] in *.
       rewrite IH by (intros Hi; apply Hn; now right). unfold apply_update. destruct (nth_error vecs0 vid); [|reflexivity]. destruct (nth_error S vid); [|reflexivity].
       apply nth_error_upd_neq. intros ->. apply Hn. now left.
+Qed.
+
+
+(* a step that starts from the vectors themselves *)
+Theorem time_step_spec vb S e script vb1 e1 vb2 e2 :
+  vecs0 = vb_vecs vb -> vbinv vb S -> vb_change_list vb = [] ->
+  (forall id v, nth_error (vb_vecs vb) id = Some v -> ve_signal_change v = false) ->
+  Forall value_ok script ->
+  run_updates vb e script = Ok (vb1, e1) -> finish_time_step vb1 e1 = Ok (vb2, e2) ->
+  let S2 := fold_left apply_update script S in
+  let touched := map (fun u => fst (fst u)) script in
+  exists T,
+    run_ops parse_f64 lz_compress cap e (ops_of_trace vecs0 T) = Ok e2 /\
+    vbinv vb2 S2 /\ vb_change_list vb2 = [] /\
+    (forall id v, nth_error (vb_vecs vb2) id = Some v -> ve_signal_change v = false) /\
+    (forall id syms, nth_error S2 id = Some syms -> In id touched -> last_opt (for_id id T) = Some syms) /\
+    (forall id, ~ In id touched -> for_id id T = [] /\ nth_error S2 id = nth_error S id).
+Proof.
+  intros Hv0 Hinv Hcl Hclean Hok Hru Hfin.
+  destruct (time_step_spec_shape vb S e script vb1 e1 vb2 e2 ltac:(rewrite Hv0; reflexivity) Hinv Hcl Hclean Hok Hru Hfin)
+    as (T & H1 & H2 & H3 & H4 & H5 & H6 & _).
+  exists T. repeat (split; [assumption|]). assumption.
 Qed.
 
 End Step.
